@@ -541,13 +541,20 @@ class OFXClient:
         #  responds with the profile-response aggregate <PROFRS> in the profile-transaction
         #  aggregate <PROFTRNRS>.
         proftrnrs = ofx.profmsgsrsv1[0]
+        # N.B. explicit checks, not ``assert`` - they must hold under ``python -O``
+        # as well, or an error reply / outdated profile gets cached.
         if proftrnrs.status.code == 1:
-            assert profrs is not None
+            if profrs is None:
+                raise ValueError("Server reports profile up to date; none cached")
             response = profrs
         else:
-            assert proftrnrs.status.code == 0
+            if proftrnrs.status.code != 0:
+                raise ValueError(f"Profile request failed: {proftrnrs.status}")
             dtprofup_server = proftrnrs.profrs.dtprofup
-            assert dtprofup is None or dtprofup <= dtprofup_server
+            if dtprofup is not None and dtprofup > dtprofup_server:
+                raise ValueError(
+                    f"Server profile {dtprofup_server} is older than cached {dtprofup}"
+                )
 
             # Cache the updated PROFRS sent by the server
             response.seek(0)
